@@ -15,6 +15,7 @@ import (
 // SMT-LIB2 over pipes, with push/pop scopes.  Every command sent is recorded
 // per scope so that the process can be restarted after a hang.
 type Solver struct {
+	MaxInts bool // harness profile: counterexample models prefer large 64-bit inputs
 	Kind      string // "cvc5", "z3-new", "z3"
 	TimeoutMs int
 	ExtraArgs []string
@@ -60,6 +61,8 @@ func NewSolver(kind string, timeoutMs int, extra ...string) (*Solver, error) {
 			s.OneShot = true
 		} else if e == "absdiv" {
 			s.AbsDiv = true
+		} else if e == "maxints" {
+			s.MaxInts = true
 		} else {
 			s.ExtraArgs = append(s.ExtraArgs, e)
 		}
